@@ -12,6 +12,7 @@
       call (`lo`); from `next` on slots are unowned, unfilled and INITIAL, except that slot `next` may
       be CLOSED once `close()` was called (`hi`); a PUBLISHED slot is filled, its payload is the item
       recorded at fill time and its futex word's message knows the slot's publication (`pub`);
+    * once `close()` was called, slot `next` is CLOSED or a closer is about to store it (`closedst`);
     * a non-zero futex word lies below `cap` (`closed` implies that no publish call is in progress:
       consequence `Main.nopub` of `TInv`);
     * per consumer: everything below its cursor is PUBLISHED and known to it (`cons`), what it was
@@ -93,6 +94,12 @@ def Pc.loaded : Pc → Nat → Prop
   | .wCas _ _ _ _ j' _, j | .wWake _ _ _ _ j', j => j' = j
   | _, _ => False
 
+/-- the thread is inside `close()` and has not stored CLOSED yet -/
+def Pc.willClose : Pc → Prop
+  | .cLd => True
+  | .wSt sv _ _ _ _ => sv = stClosed
+  | _ => False
+
 /-- number of items the thread's consumer has been handed: its cursor, except between the
 acquire fence and the return of `consume`, where the cursor already includes the range -/
 def base (s : State) (t : Nat) : Nat :=
@@ -113,6 +120,7 @@ structure Main (s : State) : Prop where
   pub : ∀ i, stOf s i = stPublished → s.filled i = true ∧ s.val i = s.item i ∧ s.hb.msg i i = true ∧ i < s.next
   capw : ∀ i, s.word i ≠ 0 → i < s.cap
   relsub : ∀ t i, s.hb.relv t i = true → s.hb.seen t i = true
+  closedst : s.closed = true → stOf s s.next = stClosed ∨ ∃ w, (s.pc w).willClose
   cons : ∀ t i, i < s.cur t → stOf s i = stPublished ∧ s.hb.seen t i = true
   got : ∀ t, s.got t = (List.range (base s t)).map (fun i => (i, s.item i))
   basele : ∀ t, base s t ≤ s.cur t
